@@ -6,3 +6,5 @@ import WrglModel.Props.C19
 #print axioms Wrgl.C19_block_cut
 #print axioms Wrgl.C19_config_independent
 #print axioms Wrgl.C19_addRows_total
+#print axioms Wrgl.C19_reuse_history_independent
+#print axioms Wrgl.C19_reuse_kept_spec
